@@ -5,7 +5,7 @@
 Require Extraction.
 Require Import ExtrOcamlBasic.
 From Coq Require Import List NArith ZArith.
-From SDB Require Import Base.Bytes Base.Assoc Params Model.Codec Model.Lock Model.Page Model.Pool Model.SqlRef Model.Catalog Model.Query Model.Wal Model.LogCodec Model.WalTrace Model.Sched Model.ReqMgr Model.Engine Model.IndexWrap Model.Trace Model.Join.
+From SDB Require Import Base.Bytes Base.Assoc Params Model.Codec Model.Lock Model.Page Model.Pool Model.SqlRef Model.Catalog Model.Query Model.Wal Model.LogCodec Model.WalTrace Model.Sched Model.ReqMgr Model.Engine Model.IndexWrap Model.Trace Model.Join Model.SkipList.
 
 Extraction Blacklist List String Int.
 
@@ -45,4 +45,6 @@ Extraction "sdbmodel.ml"
   well_formed disciplined guard_of
   (* M7j join planning (C11) *)
   join_candidates run_join run_join_select scan_candidates inner jcols jshape_of leaf_order algs has_null_key has_neg_zero_key join_hyps_ok
+  (* M17s block skip list (C17) *)
+  ix_key sl_empty sl_insert sl_remove sl_get sl_to_list sl_range sl_checkb om_find
   N.of_nat N.to_nat Z.of_N Z.to_N Z.compare N.compare.
